@@ -10,6 +10,8 @@ import Midgard.Model.Antex
 import Midgard.Spec.Antex14
 import Midgard.Proofs.ChainParser
 import Midgard.Proofs.AntexRecords
+import Midgard.Proofs.AntexRound
+import Midgard.Proofs.AntexCore
 
 namespace Midgard.Props.C15
 open Midgard.Text Midgard.FixedCol Midgard.ChainParser Midgard.Antex Midgard.Decimal
@@ -212,12 +214,95 @@ theorem satellite_period_once (s : State) (sc ant : Str) (dt : Int)
     | exact Records.satellite_period_once ..
     | (apply Records.satellite_period_once <;> assumption)
 
-/-! ### Non-vacuity and a worked file
+/-! ### File level
 
-The file-level statement `parseText (renderFile F) = calibrations F` for every well-formed file model
-`F` is *not* proved (it needs `split` of a rendered correction row = its cells, and the induction over
-records through `readData`); it is what the correspondence run measures on every generated file.
-The theorems above are its per-record and per-section ingredients. -/
+`FileM` (`Spec/AntexFile.lean`) is an ANTEX file as data: header records and comments; antenna sections (receiver or
+satellite, any number of validity periods per PRN) with TYPE / SERIAL NO, DAZI, ZEN1 / ZEN2 / DZEN, # OF FREQUENCIES,
+optional VALID FROM / VALID UNTIL, frequency sections (offsets, NOAZI row, azimuth rows), each optionally followed by
+its `START OF FREQ RMS … END OF FREQ RMS` section, further rms sections after the last frequency section; and lines the
+parser does not read (COMMENT, METH / BY / # / DATE, SINEX CODE, blank) in front of any record of an antenna section
+and after the last antenna.  `render F` is the file text (ANTEX 1.4 layouts of `Spec/Antex14.lean`), `F.wf` a
+decidable well-formedness (cells printable, without outer blanks and fitting their columns; number cells denote
+their values; printed dates exist; row values leave a blank in their 8 columns), and `calibrations F` what the file
+says: the header fields, and for every antenna in order every frequency stored by `save_correction` from a cache
+that holds the antenna's own records and the offsets / NOAZI row / azimuth rows of *that frequency section alone*. -/
+
+open Midgard.Spec.AntexFile in
+/-- **file_roundtrip.**  For every well-formed abstract ANTEX file `F`, the parser model (ChainParser `read_data` over
+the header parser and the repeated antenna-section parser, all handlers, the per-antenna cache) applied to the
+rendered text returns exactly what the file says — also when that is "refused" (a repeated receiver frequency or
+satellite validity period: both sides are the same `ParserError`). -/
+theorem file_roundtrip (F : FileM) (hwf : F.wf = true) : parseText (render F) = calibrations F := by
+  first
+    | exact File.file_roundtrip ..
+    | (apply File.file_roundtrip <;> assumption)
+
+open Midgard.Spec.AntexFile in
+/-- rms sections (wherever they stand) and unread lines contribute nothing: what the file says is what the file
+without them says -/
+theorem rms_and_unread_lines_contribute_nothing (F : FileM) :
+    calibrations F = calibrations (File.FileM.core F) := by
+  first
+    | exact (File.calibrations_core ..).symm
+    | (apply Eq.symm; apply File.calibrations_core)
+
+open Midgard.Spec.AntexFile in
+/-- … so a well-formed file parses to the same result as the file stripped of its rms sections, comments, METH /
+SINEX CODE records and blank lines -/
+theorem parse_eq_parse_core (F : FileM) (hwf : F.wf = true) (hwf' : (File.FileM.core F).wf = true) :
+    parseText (render F) = parseText (render (File.FileM.core F)) := by
+  rw [File.file_roundtrip F hwf, File.file_roundtrip _ hwf', File.calibrations_core]
+
+open Midgard.Spec.AntexFile in
+/-- **antenna section through `read_data`**: from any state with an empty cache, the lines of one well-formed antenna
+section (records, rms sections, unread lines) are consumed as one group; exactly `storeAntenna` is stored and reading
+goes on with an empty cache and line number 0 -/
+theorem antenna_section (a : AntM) (ha : a.wf = true) (more : List Str) (s : State) (hc : s.cache = {}) (n : Nat) :
+    readData headerParser corrParser resetCache (antennaLines a ++ more) false n s =
+      match storeAntenna a s with
+      | .error e => .error e
+      | .ok s' => readData headerParser corrParser resetCache more false 0 s' := by
+  first
+    | exact File.antenna_group ..
+    | (apply File.antenna_group <;> assumption)
+
+/-- a satellite antenna with two frequencies (azimuth rows), an rms section between them, a comment and a METH
+record inside the section, VALID UNTIL …59.9999999 -/
+def tinyModel : Midgard.Spec.AntexFile.FileM :=
+  let n (t : String) (v : Rat) : Midgard.Spec.AntexFile.NumCell := ⟨t.toList, v⟩
+  let i (t : String) (v : Int) : Midgard.Spec.AntexFile.IntCell := ⟨t.toList, v⟩
+  let body (bt : String) (b : Rat) : Midgard.Spec.AntexFile.SecM :=
+    ⟨n "279.00" 279, n "0.00" 0, n "2319.50" (4639 / 2), [n "-0.80" (-4 / 5), n "-0.90" (-9 / 10)],
+     [("0.0".toList, [n "1.00" 1, n "2.00" 2]), ("180.0".toList, [n "3.00" 3, n "4.00" 4]),
+      ("360.0".toList, [n "5.00" 5, n bt b])]⟩
+  { version := "1.4".toList, satSys := "M".toList, pcvType := "A".toList, refAntenna := [], refSerial := [],
+    comments1 := [], comments2 := ["  rendered from a model".toList],
+    antennas := [
+      { typ := "BLOCK IIA".toList, code := "G01".toList, satCode := "G032".toList, cospar := "1992-079A".toList,
+        dazi := n "180.0" 180, zen1 := n "0.0" 0, zen2 := n "1.0" 1, dzen := n "1.0" 1, numFreq := "2".toList,
+        validFrom := some ⟨i "1992" 1992, i "11" 11, i "22" 22, i "0" 0, i "0" 0, n "0.0000000" 0, 1047633120⟩,
+        validUntil := some ⟨i "2008" 2008, i "10" 10, i "16" 16, i "23" 23, i "59" 59, n "59.9999999" (599999999 / 10000000),
+                            1055996639⟩,
+        freqs := [⟨"G01".toList, body "6.00" 6, some (body "7.00" 7)⟩, ⟨"G02".toList, body "8.00" 8, none⟩],
+        rmsAfter := [("G02".toList, body "9.00" 9)],
+        deco := [[], [], [.meth "ROBOT".toList "Geo++ GmbH".toList "1".toList "29-JAN-17".toList], [], [.comment " a comment".toList]] }],
+    trailer := [.blank, .comment "end".toList] }
+
+example : tinyModel.wf = true := by decide +kernel
+
+/-- the hypotheses of `file_roundtrip` are satisfiable, and on this file the second frequency holds its own three
+rows although an rms section with azimuth rows stands in front of it -/
+example : (match Midgard.Spec.AntexFile.calibrations tinyModel with
+    | .ok s =>
+      (match dictGet s.data "G01".toList with
+       | some [(_, .entry e)] =>
+         (match dictGet e "G02".toList with
+          | some (.freq f) => f.azi
+          | _ => none)
+       | _ => none)
+    | .error _ => none) = some [[1, 2], [3, 4], [5, 8]] := by decide +kernel
+
+/-! ### Non-vacuity and a worked file (record level) -/
 
 example : Fits Midgard.Spec.Antex14.validLayout
     ([Align.right, .right, .right, .right, .right, .right].zip
@@ -295,3 +380,7 @@ end Midgard.Props.C15
 #print axioms Midgard.Props.C15.valid_dates_exact
 #print axioms Midgard.Props.C15.receiver_frequency_once
 #print axioms Midgard.Props.C15.satellite_period_once
+#print axioms Midgard.Props.C15.file_roundtrip
+#print axioms Midgard.Props.C15.rms_and_unread_lines_contribute_nothing
+#print axioms Midgard.Props.C15.parse_eq_parse_core
+#print axioms Midgard.Props.C15.antenna_section
